@@ -12,4 +12,8 @@ cp "${VERIF_REPO:-/repo}/go.sum" go/harness/go.sum
 if [ "${VERIF_REPO:-/repo}" = /repo ]; then
   (cd go/harness && go build -tags verif -o ../../work/bin/verifharness . && go build -tags verif -race -o ../../work/bin/verifharness-race .)
 fi  # otherwise the checks build the harness against the snapshot on first use
+# the server-trace replay (driver code, not proved) on hand-written traces: legal ones are accepted, illegal ones rejected
+if ! lean/.lake/build/bin/gmodel < lean/Driver/selftest/server_traces.txt | cut -c1-40 | cmp -s - lean/Driver/selftest/server_traces.expect; then
+  echo "WARNING: server-trace replay self-test differs from lean/Driver/selftest/server_traces.expect" >&2
+fi
 echo setup-ok
